@@ -19,7 +19,7 @@ Property theorems only (helpers: `Proofs/Lemmas/Dynamics.lean`; model: `Pose/Mod
   (`second_order`, `nls_second_order`).
 * §5 what the code did before fix D32 when the reference time is the live clock buffer
   (`nls_history_alias`, `nls_history_alias_ok`, `alias_defect_witness`).
-* §6 the code as it stands keeps the caller's tensors as `_ref_state/_ref_input` (`nls_history_code_ok`,
+* §6 before fix D38 the code kept the caller's tensors as `_ref_state/_ref_input` (`nls_history_code_ok`,
   `alias_state_defect_witness`); §7 statelessness (`lti_history_independent`, `nls_call_history_independent`,
   `nls_read_unchanged_by_calls`).
 -/
@@ -434,7 +434,7 @@ theorem nls_second_order (fs gs : List Fn) (x u : DVec ℝ) (t : ℝ) (i : ℕ) 
   rw [e2]
   exact h2
 
-/-! ## 5. The code as it stands: `_ref_t` may be the clock buffer itself (`aliasT = true`) -/
+/-! ## 5. Historical (before fix D32): `_ref_t` could be the clock buffer itself (`aliasT = true`) -/
 
 /-- what the code returns after a successful `set_refpoint` and any later non-`set_refpoint` events:
 the Jacobians are taken at the reference state and input but at `_ref_t`, which is the *current* clock
@@ -513,9 +513,9 @@ theorem alias_defect_witness :
       Fn.D, Fn.eval, Fn.one, Fn.zero]
   · simp [linearize, linAt, jac, mkEnv, Fn.D, Fn.eval, Fn.one, Fn.zero]
 
-/-! ## 6. The code as it stands: `_ref_state`, `_ref_input` are the caller's tensors (`aliasX = true`) -/
+/-! ## 6. Historical (before fix D38): `_ref_state`, `_ref_input` were the caller's tensors (`aliasX = true`) -/
 
-/-- the code agrees with the documented linearisation as long as the caller does not update, in place, a tensor it
+/-- the code before D38 agreed with the documented linearisation as long as the caller does not update, in place, a tensor it
 handed to the system (no `poke` after `set_refpoint`) -/
 theorem nls_history_code_ok (fs gs : List Fn) (S0 : NState ℝ) (pre post : List (NEv ℝ))
     (x? u? : Option (DVec ℝ)) (tr : TRef ℝ) (x u : DVec ℝ)
